@@ -2171,8 +2171,11 @@ class unyt_array(np.ndarray):
          [8. 8.]] km*s**2
         """
         res_units = self.units * getattr(b, "units", NULL_UNIT)
-        ret = self.view(np.ndarray).dot(np.asarray(b), out=out) * res_units
-        if out is not None:
+        # write through a bare view of out: ndarray.dot hands the buffer back, and a
+        # buffer that still carries its old unit would be multiplied into the result unit
+        out_view = None if out is None else np.asarray(out)
+        ret = self.view(np.ndarray).dot(np.asarray(b), out=out_view) * res_units
+        if getattr(out, "units", None) is not None:
             out.units = res_units
         return ret
 
